@@ -19,10 +19,12 @@ TInit == /\ via = "device" /\ dev = GoodDevice /\ prov = "bytes" /\ prior = "non
 TCall == /\ IsEvent("Call") /\ pc = "done"
          /\ via' = Trace[l].input.via /\ dev' = Trace[l].input.dev /\ prov' = Trace[l].input.prov
          /\ prior' = Trace[l].input.prior
-         /\ pc' = (IF Trace[l].input.prior = "good" THEN "prior" ELSE "start") /\ ioctls' = <<>> /\ opened' = FALSE /\ result' = "none"
+         /\ pc' = (IF Trace[l].input.prior # "none" THEN "prior" ELSE "start") /\ ioctls' = <<>> /\ opened' = FALSE /\ result' = "none"
 
 \* the earlier call returned exactly the device's quote
-TPrior == /\ IsEvent("Prior") /\ PriorCall /\ Trace[l].kind = "data" /\ Trace[l].dataOk
+TPrior == /\ IsEvent("Prior") /\ PriorCall
+          /\ IF prior = "provUnsupported" THEN Trace[l].kind = "error"         \* no device in the test environment
+             ELSE Trace[l].kind = "data" /\ Trace[l].dataOk
 
 Silent == /\ l <= Len(Trace) /\ UNCHANGED l /\ (Start \/ AskSupported)
 
